@@ -216,9 +216,11 @@ def oracle(c, r):
                     return
             n = len(lst)
             margin = 1e-9
-            if d < 1e-10 - 1e-13 or d > rs + margin or d < rd - 1e-10 - margin:
-                want = 0
-            elif abs(d - rs) < 1e-10 - 1e-13 or abs(d - rd) < 1e-10 - 1e-13:
+            if abs(d - rs) <= 1e-14 * max(1.0, rs):
+                want = None         # within rounding of r0 + r1: the oracle's own d may differ from the implementation's in the last bit
+            elif d < 1e-10 - 1e-13 or d > rs or d < rd - 1e-10 - margin:
+                want = 0            # concentric, separate (any d > r0 + r1, however little), nested
+            elif rs - 1e-10 + 1e-13 < d <= rs or abs(d - rd) < 1e-10 - 1e-13:
                 want = 1
             elif rd + 1e-10 + margin < d < rs - 1e-10 - margin:
                 want = 2
